@@ -47,6 +47,12 @@ pub enum Handle {
     Own,
     Shared,
     CloneOfClone,
+    /// the original handle itself (not a clone of it)
+    Root,
+    /// a clone of the original handle that has itself been cloned (to `Grand`)
+    Middle,
+    /// the clone of `Middle`
+    Grand,
 }
 
 #[derive(Clone, Debug, PartialEq, Eq, Hash, Serialize, Deserialize)]
@@ -98,6 +104,16 @@ pub enum Outcome {
     Shutdown,
     Send,
     Channel(String),
+}
+
+/// The trace id caller `idx` supplies: distinct per caller; the second caller uses the all-zero
+/// id (what an untraced process sends) and the third the largest one.
+pub fn caller_tid(idx: usize) -> u128 {
+    match idx {
+        1 => 0,
+        2 => u128::MAX,
+        i => 100 + i as u128,
+    }
 }
 
 fn outcome_of(r: Result<u32, RpcError>) -> Outcome {
@@ -162,7 +178,7 @@ struct St {
     dflag: Arc<Flag>,
     dwaker: Waker,
     d_done: bool,
-    root: Option<client::Channel<u32, u32>>,
+    root: Option<Rc<client::Channel<u32, u32>>>,
     next_tok: u32,
     replied: BTreeMap<u64, u32>,
     dup_sent: BTreeSet<u64>,
@@ -200,7 +216,7 @@ fn mk_ctx(log: &Log, deadline_ms: i64, idx: usize, sampled: bool) -> context::Co
             .checked_sub(Duration::from_millis((-deadline_ms) as u64))
             .unwrap_or(log.t0)
     };
-    ctx.trace_context.trace_id = tarpc::trace::TraceId::from(100u128 + idx as u128);
+    ctx.trace_context.trace_id = tarpc::trace::TraceId::from(caller_tid(idx));
     ctx.trace_context.span_id = tarpc::trace::SpanId::from(7000u64 + idx as u64);
     ctx.trace_context.sampling_decision = if sampled {
         tarpc::trace::SamplingDecision::Sampled
@@ -224,15 +240,31 @@ impl World {
         ccfg.max_in_flight_requests = cfg.max_in_flight;
         ccfg.pending_request_buffer = cfg.buffer;
         let nc = client::new::<u32, u32, MT>(ccfg, MockTransport::new(core.clone()));
-        let root = nc.client;
-        let shared = Rc::new(root.clone());
+        let root = Rc::new(nc.client);
+        let shared = Rc::new((*root).clone());
+        // a chain of handles: root -> middle -> grand (only built when some caller uses it)
+        let chain = cfg.callers.iter().any(|c| matches!(c.handle, Handle::Middle | Handle::Grand));
+        let middle = if chain { Some(Rc::new((*root).clone())) } else { None };
+        let grand = middle.as_ref().map(|m| Rc::new((**m).clone()));
         let mut callers = Vec::new();
         for (i, c) in cfg.callers.iter().enumerate() {
             let ctx = mk_ctx(&log, c.deadline_ms, i, c.sampled);
             let payload = i as u32;
             let fut: CallFut = match c.handle {
                 Handle::Own => {
+                    let ch = (*root).clone();
+                    Box::pin(async move { ch.call(ctx, payload).await })
+                }
+                Handle::Root => {
                     let ch = root.clone();
+                    Box::pin(async move { ch.call(ctx, payload).await })
+                }
+                Handle::Middle => {
+                    let ch = middle.clone().unwrap();
+                    Box::pin(async move { ch.call(ctx, payload).await })
+                }
+                Handle::Grand => {
+                    let ch = grand.clone().unwrap();
                     Box::pin(async move { ch.call(ctx, payload).await })
                 }
                 Handle::Shared => {
@@ -240,7 +272,7 @@ impl World {
                     Box::pin(async move { ch.call(ctx, payload).await })
                 }
                 Handle::CloneOfClone => {
-                    let a = root.clone();
+                    let a = (*root).clone();
                     let ch = a.clone();
                     drop(a);
                     Box::pin(async move { ch.call(ctx, payload).await })
@@ -260,6 +292,8 @@ impl World {
             });
         }
         drop(shared);
+        drop(middle);
+        drop(grand);
         let dflag = Flag::new(true);
         let st = St {
             callers,
